@@ -17,11 +17,11 @@ import (
 
 type c11Case struct {
 	shellCfg
-	Buf     string `json:"buf"`     // shape of the buffer before leaving
-	Where   string `json:"where"`   // emacs | vi-insert | vi-command | visual | operator-pending | vi-replace | arg-pending | emacs-arg-pending | register-pending
+	Buf     string `json:"buf"`            // shape of the buffer before leaving
+	Where   string `json:"where"`          // emacs | vi-insert | vi-command | visual | operator-pending | vi-replace | arg-pending | emacs-arg-pending | register-pending
 	Pend    string `json:"pend,omitempty"` // operator-pending: the operator keys
-	Exit    string `json:"exit"`    // exit path
-	Termios string `json:"termios"` // initial termios variant
+	Exit    string `json:"exit"`           // exit path
+	Termios string `json:"termios"`        // initial termios variant
 	Editor  string `json:"editor"`
 	Back    int    `json:"back"`
 	// an earlier call on the same Shell, made on a cooked terminal, that returned normally
